@@ -3,8 +3,9 @@ CONSTANTS
   MaxN = 64
   R = 12
   FFTLens = {1, 2, 3, 4, 6, 8, 9, 12, 15, 16}
+  MaxTerms = 5
 INIT Init
 NEXT Next
-INVARIANTS PowLoopInv PowResult PowRefusal PowCost EuBezoutInv EuGcdInv EuResult EuSameAsFunction FFTResult
+INVARIANTS PowLoopInv PowResult PowRefusal PowCost EuBezoutInv EuGcdInv EuResult EuSameAsFunction FFTResult MapFlagInv MapResult MapCalls
 PROPERTIES PowDecreases EuDecreases
 CHECK_DEADLOCK FALSE
